@@ -282,6 +282,8 @@ input::
       collected in an existing generation monitor will be prepended, unless
       new is True."""
         from mystic.monitors import Null, Monitor#, CustomMonitor
+        # log any iteration that is not yet in the current generation monitor
+        if self._energy_history is not None: self.Finalize()
         if monitor is None: monitor = Null()
         current = Null() if new else self._stepmon
         if current is monitor: current = Null()
@@ -322,7 +324,8 @@ input::
                 self._evalmon = monitor #FIXME: need .prepend(current)
         else:
             raise TypeError("'%s' is not a monitor instance" % monitor)
-        return
+        # the decorated cost is bound to the old monitor, so rebuild it
+        return self._update_objective()
 
     def SetStrictRanges(self, min=None, max=None, **kwds):
         """ensure solution is within bounds
